@@ -135,6 +135,8 @@ pub struct RunOpts {
     pub extra_args: Vec<String>,
     /// CLI: do not pass `-c typegen.json` (the configuration is discovered, e.g. ./tauri.conf.json)
     pub discover_config: bool,
+    /// see run::Spawn::hash_seed
+    pub hash_seed: Option<u64>,
 }
 
 pub fn run_generate(root: &Path, seam: Seam, opts: &RunOpts) -> ProcRun {
@@ -154,7 +156,7 @@ pub fn run_generate(root: &Path, seam: Seam, opts: &RunOpts) -> ProcRun {
                 cwd: root,
                 schedule_env: opts.schedule_env.clone(),
                 trace_file: opts.trace_file.clone(),
-                strace: opts.strace.clone(),
+                strace: opts.strace.clone(), hash_seed: opts.hash_seed
             })
         }
         Seam::Build => run::spawn(Spawn {
@@ -163,7 +165,7 @@ pub fn run_generate(root: &Path, seam: Seam, opts: &RunOpts) -> ProcRun {
             cwd: root,
             schedule_env: opts.schedule_env.clone(),
             trace_file: opts.trace_file.clone(),
-            strace: opts.strace.clone(),
+            strace: opts.strace.clone(), hash_seed: opts.hash_seed
         }),
     }
 }
